@@ -401,6 +401,11 @@ def sweep_families(tier):
         "cycle.reuse-self-leaf": '<reuse id="a" href="#a"/>',
         "cycle.use": '<use id="a" href="#b"/><use id="b" href="#a"/>',
         "cycle.use-self": '<use id="a" href="#a"/>',
+        "cycle.use-prev-noid": '<rect wh="2"/><use href="^" x="3"/><rect xy="^|h" wh="1"/>',
+        "cycle.use-prev-noid-chain": '<rect wh="2"/><use href="^" x="3"/><use href="^" x="6"/><use href="^" x="9"/>',
+        "cycle.reuse-prev-noid": '<rect wh="2"/><reuse href="^" x="3"/><reuse href="^" x="6"/><rect xy="^|v" wh="1"/>',
+        "cycle.use-prev-first": '<use href="^"/><rect xy="^|h" wh="1"/>',
+        "cycle.use-prev-in-loop": '<rect wh="2"/><loop count="3"><use href="^" x="3"/></loop><circle cxy="^@c" r="1"/>',
         "cycle.use-relpos": '<use id="a" href="#b" xy="#b|h"/><use id="b" href="#a" xy="#a|h"/>',
         "cycle.clip-self": '<clipPath id="c" clip-path="url(#c)"><rect wh="1"/></clipPath><rect wh="2" clip-path="url(#c)"/>',
         "cycle.clip-self-alone": '<clipPath id="c" clip-path="url(#c)"><rect wh="1"/></clipPath>',
